@@ -39,15 +39,16 @@ func c20DirWalk(b []byte, limit int, max int) (pos [8]int, n int) {
 
 // c20CheckEntry compares one library entry with the on-disk entry at offset p of b.
 func c20CheckEntry(de *directoryEntry, b []byte, p int, maxName int) {
-	vp.Assert(de.inode == c20le32(b, p), "dirent inode")
-	vp.Assert(uint8(de.fileType) == b[p+7], "dirent file_type")
 	nl := int(b[p+6])
-	vp.Assert(len(de.filename) == nl, "dirent name length = name_len")
+	hdr := c20b2i(de.inode == c20le32(b, p)) & c20b2i(uint8(de.fileType) == b[p+7]) & c20b2i(len(de.filename) == nl)
+	vp.Assert(hdr == 1, "dirent inode, file_type and name length (= name_len) as on disk")
+	ok := 1
 	for j := 0; j < maxName; j++ {
 		if j < nl && j < len(de.filename) {
-			vp.Assert(de.filename[j] == b[p+8+j], "dirent name bytes")
+			ok &= c20b2i(de.filename[j] == b[p+8+j])
 		}
 	}
+	vp.Assert(ok == 1, "dirent name bytes")
 }
 
 // VP_C20_dir_linear: one directory block (no checksum tail) with every byte arbitrary, well-formed
@@ -284,10 +285,12 @@ func VP_C20_dirent_long_name() {
 		return
 	}
 	vp.Assert(len(ents[0].filename) == nl, "long name: length = name_len")
+	ok := 1
 	for _, j := range []int{0, 199, 246, 247, 253, 254} {
 		if j < nl && j < len(ents[0].filename) {
-			vp.Assert(ents[0].filename[j] == b[8+j], "long name: bytes")
+			ok &= c20b2i(ents[0].filename[j] == b[8+j])
 		}
 	}
+	vp.Assert(ok == 1, "long name: bytes")
 	vp.Cover("255-byte class name")
 }
